@@ -185,16 +185,23 @@ def countSteps (i : Nat) : List Act → Nat
   | .step j :: rest => (if j = i then 1 else 0) + countSteps i rest
   | _ :: rest => countSteps i rest
 
-/-! ## two threads inside `Template.stream` / `_prepare_self`, one source line at a time
+/-! ## threads inside `Template.stream` / `_prepare_self`
 
     455  if not self._prepared:                    (property `stream`)
     474  if not self._prepared:                    (`_prepare_self`)
     475      self._stream = list(self._prepare(self._stream, inlined))
     476      self._prepared = True
+
+  One source line at a time, except line 475 which is split where it matters: the argument
+  `self._stream` is read first (`l475`), `_prepare` then runs over that value and the result is
+  assigned (`l475run`).
 -/
 
 inductive Pc where
-  | l455 | l474 | l475 | l476
+  | l455 | l474
+  | l475                           -- about to read `self._stream`
+  | l475run (sawPrepared : Bool)   -- `_prepare` running over the value read; then the assignment
+  | l476
   | finished                -- returned `self._stream`
   | raised                  -- `_prepare` met directive objects where it expects tuples: TypeError
   deriving DecidableEq, Repr, Inhabited
@@ -212,8 +219,9 @@ def raceStep (s : RaceSt) (t : Nat) : RaceSt :=
     match pc with
     | .l455 => { s with pcs := s.pcs.set t (if s.prepared then .finished else .l474) }
     | .l474 => { s with pcs := s.pcs.set t (if s.prepared then .finished else .l475) }
-    | .l475 =>
-      if s.streamPrepared then { s with pcs := s.pcs.set t .raised }
+    | .l475 => { s with pcs := s.pcs.set t (.l475run s.streamPrepared) }
+    | .l475run saw =>
+      if saw then { s with pcs := s.pcs.set t .raised }
       else { s with streamPrepared := true, pcs := s.pcs.set t .l476 }
     | .l476 => { s with prepared := true, pcs := s.pcs.set t .finished }
     | .finished => s
